@@ -185,3 +185,25 @@ package fs
 //@   callsite os.Rename source_is_only_read [C34]: false
 //@   callsite os.Truncate source_is_only_read [C34]: false
 //@   ensures linked_or_copied [C34]: result == nil ==> called("os.Symlink") || called("os.Link") || called("CopyFile")
+
+// ---------------------------------------------------------------------------------------------
+// Path hashes of directory trees (C09)
+//
+// Ghost set W: the byte strings written to the hash by this visit of one entry of the walk. The statement
+// needs every entry's relative NAME (its position) and, for a symlink, its TARGET to reach the hash, and a
+// directory to leave a trace of its own. The code hashes only file contents and a constant marker per
+// symlink: renames, moves, retargeted links and empty directories do not change the hash. Recorded as a
+// known finding (region: every entry); what IS proved is that a regular file's contents are hashed
+// (fileHash is called on it) and that a symlink leaves the marker.
+//@ spec anyEntry(p string) bool = true
+//@ assume func (PathHasher).fileHash
+//@ func (PathHasher).hash.lit#1
+//@   opt nopanic=off
+//@   opt inline=off
+//@   callsite (Writer).Write collect W string: string(arg_p)
+//@   callsite (PathHasher).fileHash the_entry_itself [C09]: arg_filename == p && !mode.IsDir() && !mode.IsSymlink()
+//@   ensures file_contents_are_hashed [C09]: result == nil && !mode.IsDir() && !mode.IsSymlink() ==> called("(PathHasher).fileHash")
+//@   ensures symlink_leaves_a_mark [C09]: result == nil && mode.IsSymlink() ==> collected(W, string(boolTrueHashValue))
+//@   ensures name_and_position_are_hashed [C09 except=anyEntry]: result == nil ==> collected(W, p[len(path):])
+//@   callsite os.Readlink trackresult target string: result0
+//@   ensures symlink_target_is_hashed [C09 except=anyEntry]: result == nil && mode.IsSymlink() ==> collected(W, target)
